@@ -247,6 +247,12 @@ func c03Random(c *fw.Case, rng *rand.Rand) {
 		c.Count("root_build_failed", 1)
 		return
 	}
+	if rng.Intn(8) == 0 {
+		if ar := aggregateDerive(rng, root); ar != nil {
+			root = ar
+			c.Count("roots_produced_by_aggregate", 1)
+		}
+	}
 	c.Count("shape:"+root.Shape, 1)
 	var all []string
 	c.DescribeLazy(func() interface{} {
